@@ -161,12 +161,12 @@ def gen_case(ctx: Ctx):
             params["semiangle_cutoff"] = gen_dist(rng, "semiangle_cutoff")
         else:
             params["semiangle_cutoff"] = 20.0
-        case["tilt"] = rng.choice([None, [gen_dist(rng, "tilt"), 1.0], [0.5, gen_dist(rng, "tilt")], [gen_dist(rng, "tilt"), gen_dist(rng, "tilt")]])
+        case["tilt"] = rng.choice([None, [gen_dist(rng, "tilt", allow_mean=True), 1.0], [0.5, gen_dist(rng, "tilt")], [gen_dist(rng, "tilt"), gen_dist(rng, "tilt", allow_mean=True)]])
         case["scan"] = rng.choice([None, "custom", "grid"])
         case["lazy"] = rng.random() < 0.5
     if kind == "planewave-multislice":
         sc = rng.choice([0.0, 1.5, -4.0, 12.0])  # the scalar component of a mixed (distribution, scalar) tilt, mostly non-zero
-        case["tilt"] = rng.choice([[gen_dist(rng, "tilt"), sc], [sc, gen_dist(rng, "tilt")], [gen_dist(rng, "tilt"), gen_dist(rng, "tilt")]])
+        case["tilt"] = rng.choice([[gen_dist(rng, "tilt", allow_mean=True), sc], [sc, gen_dist(rng, "tilt")], [gen_dist(rng, "tilt", allow_mean=True), gen_dist(rng, "tilt")]])
         case["lazy"] = rng.random() < 0.5
     return case
 
@@ -206,8 +206,9 @@ class C03(Property):
         "the numeric kernels (CTF phase, aperture, envelopes, Fresnel propagator with tilt) are uninterpreted in the theorems; "
         "member == scalar run on the real kernels is observed by the conformance oracle (rel. 1e-5, float32)",
     ]
-    assumptions = ["as the code defines it: Aberrations/CTF multiply each member by the product of its distribution weights; "
-                   "an averaged axis is the arithmetic mean of those weighted members (not normalised by the sum of weights)"]
+    assumptions = ["averaged axes are compared with the weighted mean of the scalar runs with intensity weights w_i^2 (the default "
+                   "'intensity' normalisation of abtem.distributions.gaussian); members of Aberrations/CTF ensembles carry the product of "
+                   "their amplitude weights"]
     rule = ("unit: random argument lists mixing scalars and 1-3-value distributions through _unpack_distributions and the block transform; "
             "oracle: Aberrations, CTF, Aperture, TemporalEnvelope, SpatialEnvelope on an angular grid, Probe.build (aberration, aperture, "
             "tilt distributions, custom/grid scans, lazy and eager, ensemble_mean) and PlaneWave tilt ensembles through multislice; "
@@ -259,6 +260,17 @@ class C03(Property):
                                  case | {"chunks": chunks, "block": bi}, "ok " + "|".join(enc)))
             ctx.count(f"unit:ndist={sum(isinstance(a, list) for a in args)}")
             ctx.case(case, nontrivial=any(isinstance(a, list) for a in args))
+        # averaged distributions: the squared amplitude weights returned by the real _unpack_distributions
+        from abtem.distributions import DistributionFromValues, _unpack_distributions
+        from common import rat_s
+
+        for _ in range(ctx.n(20, 200)):
+            n = rng.randint(1, 4)
+            w = [rng.choice([0.25, 0.5, 1.0, 2.0, 3.0]) for _ in range(n)]
+            dist = DistributionFromValues(np.arange(n, dtype=float), weights=np.array(w), ensemble_mean=True)
+            _, wts = _unpack_distributions(dist, shape=(2,))
+            real = [float(x) ** 2 for x in np.asarray(wts, dtype=float).reshape(-1)[:n]] if np.ndim(wts) else [float(wts) ** 2]
+            jobs.append((f"normw2 {list_s([x * x for x in w], rat_s)}", "_unpack_distributions(weights of an averaged distribution)", {"weights": w}, real))
         # Probe: the order in which the builder lists its ensembles and the order in which _calculate_array applies them
         # (both read from the current source) must produce the axes order of a really built probe
         import ast
@@ -295,6 +307,13 @@ class C03(Property):
             jobs.append((f"compose {enc(names)} {enc(applied)}", "Probe ensemble axes order (ensemble_names vs _calculate_array apply order)", case, impl))
         outs = drv.query([j[0] for j in jobs])
         for (line, name, case, impl), out in zip(jobs, outs):
+            if isinstance(impl, list):  # float32 squared weights against the exact rationals of the model
+                from fractions import Fraction
+
+                model = [float(Fraction(t)) for t in out[3:].split(",")] if out.startswith("ok ") and out != "ok _" else None
+                ok = model is not None and len(model) == len(impl) and all(abs(a - b) <= 1e-5 * max(1.0, abs(a)) for a, b in zip(model, impl))
+                ctx.agree(name, case | {"line": line}, model, impl, ok=ok)
+                continue
             ctx.agree(name, case | {"line": line}, out, impl)
         ctx.traces += len(jobs)
 
@@ -375,7 +394,7 @@ class C03(Property):
         code_w2 = sum(w * w * i for w, i in zip(ws, singles)) / n
         plain = sum(singles) / n
         if got.shape == weighted.shape and tk in ("aberrations", "ctf") and np.allclose(got, code_w2, **tol):
-            ctx.violation("aberrations:ensemble-mean-is-sum-w2I-over-n", c, detail)  # the recorded sub-case, verified
+            ctx.violation("aberrations:ensemble-mean-is-sum-w2I-over-n", c, detail)  # fixed by 4ef047d8: must not come back
         elif got.shape == weighted.shape and tk in ("temporal", "spatial", "aperture") and np.allclose(got, plain, **tol):
             ctx.violation("envelope:ensemble-mean-ignores-distribution-weights", c, detail)
         else:
@@ -434,25 +453,45 @@ class C03(Property):
         if mean_specs:  # wave functions are never averaged; the intensity measurement is
             meas = w.intensity().reduce_ensemble()
         for idx in itertools.product(*[range(n) for n in shape]):
-            acc, count = 0.0, 0
+            acc_w, acc_p, wsum, count = 0.0, 0.0, 0.0, 0
             for midx in itertools.product(*[range(len(s["values"])) for _, s in mean_specs]):
                 p = dict(params)
                 t = list(tilt) if tilt else None
+                wt = 1.0
                 for ((n, j), s), i in list(zip(kept, idx)) + list(zip(mean_specs, midx)):
                     if n == "tilt":
                         t[j] = s["values"][i]
                     else:
-                        p[n] = s["values"][i]  # (probes are normalised member by member: the distribution weights cancel)
+                        p[n] = s["values"][i]
+                for ((n, j), s), i in zip(mean_specs, midx):
+                    wt *= float(s["weights"][i]) ** 2  # intensity weight of this combination of averaged values
                 ref = np.asarray(run(p, tuple(t) if t else None, scan).array)
-                acc = acc + (np.abs(ref) ** 2 if mean_specs else ref)
+                inten = np.abs(ref) ** 2 if mean_specs else ref
+                acc_w = acc_w + wt * inten
+                acc_p = acc_p + inten
+                wsum += wt
                 count += 1
-            ref_arr = acc / count
+            weighted = acc_w / wsum if mean_specs else acc_p
+            plain = acc_p / count
             got = np.asarray(meas.array if mean_specs else w.array)[idx]
-            if got.shape != ref_arr.shape or not np.allclose(got, ref_arr, rtol=1e-4, atol=2e-5 * max(1.0, float(np.abs(ref_arr).max()))):
-                key = "mean-ne-mean-of-weighted-members" if mean_specs else "member-ne-scalar-run"
-                ctx.violation(f"{kind}:{key}", c, {"index": list(idx), "max_abs_diff": float(np.max(np.abs(got - ref_arr))) if got.shape == ref_arr.shape else "shape",
-                                                    "axes": [type(a).__name__ for a in w.ensemble_axes_metadata]})
+            scale = float(np.abs(weighted).max()) if np.size(weighted) else 1.0
+            tol = dict(rtol=2e-4, atol=2e-5 * scale)
+            if got.shape == weighted.shape and np.allclose(got, weighted, **tol):
+                continue
+            detail = {"index": list(idx), "max_abs_diff": float(np.max(np.abs(got - weighted))) if got.shape == weighted.shape else "shape",
+                      "axes": [type(a).__name__ for a in w.ensemble_axes_metadata]}
+            if not mean_specs:
+                ctx.violation(f"{kind}:member-ne-scalar-run", c, detail)
                 return
+            nonuniform = [n for (n, _), s in mean_specs if len(set(s["weights"])) > 1]
+            is_plain = got.shape == plain.shape and np.allclose(got, plain, **tol)
+            if is_plain and nonuniform and all(n == "tilt" for n in nonuniform):
+                ctx.violation("tilt:ensemble-mean-ignores-distribution-weights", c, detail)  # recorded sub-case, re-derived: got == plain mean
+            elif is_plain and nonuniform and kind == "probe":
+                ctx.violation("probe:ensemble-mean-weights-cancelled-by-normalisation", c, detail)
+            else:
+                ctx.violation(f"{kind}:mean-ne-weighted-mean-unexplained", c, detail)
+            return
 
     def conformance(self, ctx: Ctx):
         for _ in range(ctx.n(60, 800)):
